@@ -4,7 +4,7 @@ From RJ Require Import Base.Outcome Base.F64 Model.Token Model.Ast Model.RefCore
 From RJ Require Import Proofs.RefSem_proofs Proofs.RefSem_laws Proofs.RefSem_params.
 From RJ Require Import Model.Analyze Proofs.RefScope_defs Proofs.RefScope_main Proofs.RefScope_static.
 From RJ Require Import Proofs.RefInherit_proofs Proofs.RefNeed_proofs.
-From RJ Require Import Proofs.RefDead_defs Proofs.RefDead_proofs Proofs.RefDead_main Proofs.RefDead_thm.
+From RJ Require Import Proofs.RefDead_defs Proofs.RefDead_proofs Proofs.RefDead_main Proofs.RefDead_thm Proofs.RefDead_builtins Proofs.RefDead_final.
 Local Open Scope N_scope.
 
 (* ---- the interpreter is a function; more fuel / a larger stack limit never change a verdict ---- *)
@@ -216,26 +216,21 @@ Theorem C02_rw_local_name : forall f c en x e d t o,
   run_task (S (S (S f))) c (TEval en (CLocal [(x, e)] (CVar x))) d = (t, o).
 Proof. exact rw_local_name. Qed.
 
-(* ---- a dead local binding is irrelevant: value, error AND trace (partial: the simulation of the
-        builtins is a premise; everything else of the evaluator is covered) ---- *)
-Theorem C02_dead_local_core_partial : forall x e1 e2 body,
-  builtin_sim_at x e1 e2 ->
+(* ---- a dead local binding is irrelevant: value, error AND trace, every fuel / limit / switch ---- *)
+Theorem C02_builtin_sim : forall x e1 e2, builtin_sim_at x e1 e2.
+Proof. exact builtin_sim. Qed.
+
+Theorem C02_dead_local_core : forall x e1 e2 body,
   closed (rm x [s_std]) false body ->
   forall fuel c, run_core fuel c (CLocal [(x, e1)] body) = run_core fuel c (CLocal [(x, e2)] body).
-Proof. exact dead_local_core. Qed.
+Proof. exact dead_local_core_full. Qed.
 
-Theorem C02_dead_local_irrelevant_partial : forall sp xid e1 e2 body,
+Theorem C02_dead_local_irrelevant : forall sp xid e1 e2 body,
   id_value xid <> s_std ->
-  builtin_sim_at (id_value xid) (ds_expr false false e1) (ds_expr false false e2) ->
   StaticOK [s_std] false body ->
   forall fuel c, run fuel c (ELocal sp [MkBind xid None e1] body) = run fuel c (ELocal sp [MkBind xid None e2] body).
-Proof. exact dead_local_irrelevant. Qed.
+Proof. exact dead_local_irrelevant_full. Qed.
 
-(* the premise, and the full statements, kept as goals *)
-Definition C02_goal_builtin_sim : Prop := forall x e1 e2, builtin_sim_at x e1 e2.
-Definition C02_goal_dead_local_irrelevant : Prop := forall sp xid e1 e2 body,
-  id_value xid <> s_std -> StaticOK [s_std] false body ->
-  forall fuel c, run fuel c (ELocal sp [MkBind xid None e1] body) = run fuel c (ELocal sp [MkBind xid None e2] body).
 (* coincidence in its general form: related environments (equal on the free variables) give related results;
    instance needed for  local x = e; x  ==  e : an unused extra frame is invisible *)
 Definition C02_goal_rw_local_name_full : Prop := forall sp sp2 xid e fuel c t j,
@@ -363,5 +358,6 @@ Print Assumptions C02_rw_array_proj.
 Print Assumptions C02_rw_identity.
 Print Assumptions C02_rw_local_name.
 Print Assumptions C02_laws_nonvacuous.
-Print Assumptions C02_dead_local_core_partial.
-Print Assumptions C02_dead_local_irrelevant_partial.
+Print Assumptions C02_builtin_sim.
+Print Assumptions C02_dead_local_core.
+Print Assumptions C02_dead_local_irrelevant.
